@@ -6,4 +6,582 @@ import BiscuitModel.Proofs.Datalog
 
 namespace Biscuit
 
+set_option linter.unusedSectionVars false
+
+/-! ### Engine: bounds, monotonicity, error provenance -/
+
+section Engine
+variable {V E : Type} [DecidableEq V]
+
+/-- The rule consumer never reports a run limit. -/
+theorem applyCombos_err_ne_limit (ev : Bindings V → E → Outcome Bool) (r : Rule V E) :
+    ∀ (cs : List (Bindings V)) (acc out : List (Fact V)) (e : RunErr),
+    applyCombos ev r cs acc = (out, some e) → e ≠ .limitIter ∧ e ≠ .limitFacts := by
+  intro cs
+  induction cs with
+  | nil => intro acc out e h; simp [applyCombos] at h
+  | cons σ rest ih =>
+    intro acc out e h
+    simp only [applyCombos] at h
+    split at h
+    · simp only [Prod.mk.injEq, Option.some.injEq] at h
+      obtain ⟨_, rfl⟩ := h
+      exact ⟨nofun, nofun⟩
+    · simp only [Prod.mk.injEq, Option.some.injEq] at h
+      obtain ⟨_, rfl⟩ := h
+      exact ⟨nofun, nofun⟩
+    · exact ih _ _ _ h
+    · split at h
+      · simp only [Prod.mk.injEq, Option.some.injEq] at h
+        obtain ⟨_, rfl⟩ := h
+        exact ⟨nofun, nofun⟩
+      · exact ih _ _ _ h
+
+theorem stepAll_err_ne_limit (ev : Bindings V → E → Outcome Bool) (S : List (Fact V)) :
+    ∀ (P : List (Rule V E)) (acc out : List (Fact V)) (e : RunErr),
+    stepAll ev S P acc = (out, some e) → e ≠ .limitIter ∧ e ≠ .limitFacts := by
+  intro P
+  induction P with
+  | nil => intro acc out e h; simp [stepAll] at h
+  | cons r rs ih =>
+    intro acc out e h
+    simp only [stepAll] at h
+    split at h
+    · exact ih _ _ _ h
+    · next acc' e' hr =>
+      simp only [Prod.mk.injEq, Option.some.injEq] at h
+      obtain ⟨_, rfl⟩ := h
+      exact applyCombos_err_ne_limit ev r _ _ _ _ hr
+
+theorem length_le_insertAll (s new : List (Fact V)) : s.length ≤ (insertAll s new).length := by
+  obtain ⟨t, ht⟩ := insertAll_prefix new s
+  rw [ht, List.length_append]; omega
+
+/-- The world only grows during a run, whatever the outcome. -/
+theorem run_subset (ev : Bindings V → E → Outcome Bool) (mf : Nat) (P : List (Rule V E)) :
+    ∀ (n : Nat) (F W : List (Fact V)) (e : Option RunErr),
+    run ev mf P n F = (W, e) → ∀ f ∈ F, f ∈ W := by
+  intro n
+  induction n with
+  | zero =>
+    intro F W e h f hf
+    simp only [run, Prod.mk.injEq] at h
+    rw [← h.1]; exact hf
+  | succ n ih =>
+    intro F W e h f hf
+    simp only [run] at h
+    split at h
+    · simp only [Prod.mk.injEq] at h
+      rw [← h.1]; exact hf
+    · next new hs =>
+      have hmem : f ∈ insertAll F new := (mem_insertAll new F f).2 (Or.inl hf)
+      split at h
+      · simp only [Prod.mk.injEq] at h
+        rw [← h.1]; exact hmem
+      · split at h
+        · simp only [Prod.mk.injEq] at h
+          rw [← h.1]; exact hmem
+        · exact ih _ W e h f hmem
+
+/-- Success stays strictly below the fact limit. -/
+theorem run_ok_lt (ev : Bindings V → E → Outcome Bool) (mf : Nat) (P : List (Rule V E)) :
+    ∀ (n : Nat) (F W : List (Fact V)), run ev mf P n F = (W, none) → W.length < mf := by
+  intro n
+  induction n with
+  | zero => intro F W h; simp [run] at h
+  | succ n ih =>
+    intro F W h
+    simp only [run] at h
+    split at h
+    · simp at h
+    · next new hs =>
+      split at h
+      · simp at h
+      · next hlt =>
+        split at h
+        · simp only [Prod.mk.injEq, and_true] at h
+          subst h; omega
+        · exact ih _ W h
+
+/-- The fact-limit error is raised only when the limit was really reached. -/
+theorem run_limitFacts_ge (ev : Bindings V → E → Outcome Bool) (mf : Nat) (P : List (Rule V E)) :
+    ∀ (n : Nat) (F W : List (Fact V)), run ev mf P n F = (W, some .limitFacts) → W.length ≥ mf := by
+  intro n
+  induction n with
+  | zero => intro F W h; simp [run] at h
+  | succ n ih =>
+    intro F W h
+    simp only [run] at h
+    split at h
+    · next e hs =>
+      simp only [Prod.mk.injEq, Option.some.injEq] at h
+      obtain ⟨_, rfl⟩ := h
+      exact absurd rfl (stepAll_err_ne_limit ev F P [] _ _ hs).2
+    · next new hs =>
+      split at h
+      · next hge =>
+        simp only [Prod.mk.injEq, and_true] at h
+        subst h; exact hge
+      · split at h
+        · simp at h
+        · exact ih _ W h
+
+/-- A run that ends with the iteration limit has grown by at least one fact per round. -/
+theorem run_limitIter_growth (ev : Bindings V → E → Outcome Bool) (mf : Nat) (P : List (Rule V E)) :
+    ∀ (n : Nat) (F W : List (Fact V)), run ev mf P n F = (W, some .limitIter) →
+      W.length ≥ F.length + n := by
+  intro n
+  induction n with
+  | zero =>
+    intro F W h
+    simp only [run, Prod.mk.injEq, and_true] at h
+    subst h; omega
+  | succ n ih =>
+    intro F W h
+    simp only [run] at h
+    split at h
+    · next e hs =>
+      simp only [Prod.mk.injEq, Option.some.injEq] at h
+      obtain ⟨_, rfl⟩ := h
+      exact absurd rfl (stepAll_err_ne_limit ev F P [] _ _ hs).1
+    · next new hs =>
+      split at h
+      · simp at h
+      · split at h
+        · simp at h
+        · next hne =>
+          have h1 := ih _ W h
+          have h2 := length_le_insertAll F new
+          omega
+
+end Engine
+
+/-! ### Checks and single blocks -/
+
+section Auth
+variable (cfg : EvalCfg)
+
+theorem failedFrom_map (facts : List DFact) (mk : Nat → CheckId) (f : CheckId → CheckId) :
+    ∀ (cs : List Check) (i : Nat),
+    (failedFrom cfg facts mk cs i).map f = failedFrom cfg facts (fun n => f (mk n)) cs i
+  | [], _ => rfl
+  | c :: cs, i => by
+    simp only [failedFrom]
+    split
+    · exact failedFrom_map facts mk f cs (i + 1)
+    · simp only [List.map_cons, failedFrom_map facts mk f cs (i + 1)]
+
+theorem failedFrom_forall (facts : List DFact) (mk : Nat → CheckId) (Q : CheckId → Prop)
+    (hmk : ∀ n, Q (mk n)) :
+    ∀ (cs : List Check) (i : Nat), ∀ x ∈ failedFrom cfg facts mk cs i, Q x
+  | [], _ => by intro x hx; simp [failedFrom] at hx
+  | c :: cs, i => by
+    intro x hx
+    simp only [failedFrom] at hx
+    split at hx
+    · exact failedFrom_forall facts mk Q hmk cs (i + 1) x hx
+    · rcases List.mem_cons.mp hx with rfl | hx
+      · exact hmk i
+      · exact failedFrom_forall facts mk Q hmk cs (i + 1) x hx
+
+theorem failedChecks_map (facts : List DFact) (mk : Nat → CheckId) (f : CheckId → CheckId)
+    (cs : List Check) :
+    (failedChecks cfg facts mk cs).map f = failedChecks cfg facts (fun n => f (mk n)) cs :=
+  failedFrom_map cfg facts mk f cs 0
+
+/-- The failures of block `idx` are all tagged `block idx _`. -/
+theorem evalBlock_ok_forall (lim : Limits) (base : List DFact) (b : Block) (idx : Nat)
+    (l : List CheckId) (h : evalBlock cfg lim base b idx = .ok l) :
+    ∀ x ∈ l, ∃ c, x = CheckId.block idx c := by
+  simp only [evalBlock] at h
+  split at h
+  · cases h
+  · simp only [Except.ok.injEq] at h
+    subst h
+    exact failedFrom_forall cfg _ _ _ (fun n => ⟨n, rfl⟩) _ _
+
+/-- A block's evaluation succeeds only if its run completed. -/
+theorem evalBlock_ok_run (lim : Limits) (base : List DFact) (b : Block) (idx : Nat)
+    (l : List CheckId) (h : evalBlock cfg lim base b idx = .ok l) :
+    (runWorld cfg lim { facts := insertAll base b.facts, rules := b.rules }).2 = none := by
+  simp only [evalBlock] at h
+  split at h
+  · cases h
+  · next heq => rw [heq]
+
+theorem evalBlock_nochecks (lim : Limits) (base : List DFact) (b : Block) (idx : Nat)
+    (hb : b.checks = []) (l : List CheckId) (h : evalBlock cfg lim base b idx = .ok l) : l = [] := by
+  simp only [evalBlock] at h
+  split at h
+  · cases h
+  · simp only [Except.ok.injEq] at h
+    subst h
+    rw [hb]; rfl
+
+/-- Renumbering: the result of a block at position `idx` is the result at position
+`idx'` with the block tag rewritten. -/
+theorem evalBlock_shift (lim : Limits) (base : List DFact) (b : Block) (idx idx' : Nat)
+    (f : CheckId → CheckId) (hf : ∀ c, f (.block idx' c) = .block idx c) :
+    evalBlock cfg lim base b idx = Except.map (List.map f) (evalBlock cfg lim base b idx') := by
+  simp only [evalBlock]
+  split
+  · rfl
+  · simp only [Except.map, failedChecks_map]
+    congr 2
+    funext n
+    exact (hf n).symm
+
+/-! ### The block loop -/
+
+theorem blockPhase_append (lim : Limits) (base : List DFact) :
+    ∀ (bs bs' : List Block) (idx : Nat) (acc : List CheckId),
+    blockPhase cfg lim base (bs ++ bs') idx acc =
+      match blockPhase cfg lim base bs idx acc with
+      | .error e => .error e
+      | .ok acc' => blockPhase cfg lim base bs' (idx + bs.length) acc'
+  | [], bs', idx, acc => by simp [blockPhase]
+  | b :: bs, bs', idx, acc => by
+    simp only [List.cons_append, blockPhase, List.length_cons]
+    cases evalBlock cfg lim base b idx with
+    | error e => rfl
+    | ok failed =>
+      simp only
+      rw [blockPhase_append lim base bs bs' (idx + 1) (acc ++ failed)]
+      have : idx + 1 + bs.length = idx + (bs.length + 1) := by omega
+      rw [this]
+
+/-- Failures only accumulate. -/
+theorem blockPhase_prefix (lim : Limits) (base : List DFact) :
+    ∀ (bs : List Block) (idx : Nat) (acc out : List CheckId),
+    blockPhase cfg lim base bs idx acc = .ok out → acc <+: out
+  | [], idx, acc, out, h => by
+    simp only [blockPhase, Except.ok.injEq] at h
+    subst h; exact List.prefix_refl _
+  | b :: bs, idx, acc, out, h => by
+    simp only [blockPhase] at h
+    split at h
+    · cases h
+    · next failed _ =>
+      exact (List.prefix_append acc failed).trans (blockPhase_prefix lim base bs _ _ _ h)
+
+/-- The accumulator is only a prefix: what the loop appends does not depend on it. -/
+theorem blockPhase_acc (lim : Limits) (base : List DFact) :
+    ∀ (bs : List Block) (idx : Nat) (acc : List CheckId),
+    blockPhase cfg lim base bs idx acc =
+      Except.map (acc ++ ·) (blockPhase cfg lim base bs idx [])
+  | [], idx, acc => by simp [blockPhase, Except.map]
+  | b :: bs, idx, acc => by
+    simp only [blockPhase]
+    cases evalBlock cfg lim base b idx with
+    | error e => rfl
+    | ok failed =>
+      simp only
+      rw [blockPhase_acc lim base bs (idx + 1) (acc ++ failed),
+        blockPhase_acc lim base bs (idx + 1) ([] ++ failed)]
+      cases blockPhase cfg lim base bs (idx + 1) [] with
+      | error e => rfl
+      | ok t => simp [Except.map]
+
+/-- A successful loop performed every block's run to completion. -/
+theorem blockPhase_ok_runs (lim : Limits) (base : List DFact) :
+    ∀ (bs : List Block) (idx : Nat) (acc out : List CheckId),
+    blockPhase cfg lim base bs idx acc = .ok out →
+    ∀ b ∈ bs, (runWorld cfg lim { facts := insertAll base b.facts, rules := b.rules }).2 = none
+  | [], _, _, _, _ => by intro b hb; cases hb
+  | b :: bs, idx, acc, out, h => by
+    simp only [blockPhase] at h
+    split at h
+    · cases h
+    · next failed he =>
+      intro b' hb'
+      rcases List.mem_cons.mp hb' with rfl | hb'
+      · exact evalBlock_ok_run cfg lim base _ idx failed he
+      · exact blockPhase_ok_runs lim base bs _ _ _ h b' hb'
+
+/-- Decomposition of a successful loop around one block. -/
+theorem blockPhase_mid (lim : Limits) (base : List DFact) (pre post : List Block) (b : Block)
+    (idx : Nat) (acc out : List CheckId)
+    (h : blockPhase cfg lim base (pre ++ b :: post) idx acc = .ok out) :
+    ∃ a fb t, blockPhase cfg lim base pre idx acc = .ok a ∧
+      evalBlock cfg lim base b (idx + pre.length) = .ok fb ∧
+      blockPhase cfg lim base post (idx + pre.length + 1) [] = .ok t ∧
+      out = a ++ fb ++ t := by
+  rw [blockPhase_append] at h
+  cases hpre : blockPhase cfg lim base pre idx acc with
+  | error e => rw [hpre] at h; cases h
+  | ok a =>
+    rw [hpre] at h
+    simp only [blockPhase] at h
+    cases hb : evalBlock cfg lim base b (idx + pre.length) with
+    | error e => rw [hb] at h; cases h
+    | ok fb =>
+      rw [hb] at h
+      simp only at h
+      rw [blockPhase_acc] at h
+      cases ht : blockPhase cfg lim base post (idx + pre.length + 1) [] with
+      | error e => rw [ht] at h; cases h
+      | ok t =>
+        rw [ht] at h
+        simp only [Except.map, Except.ok.injEq] at h
+        exact ⟨a, fb, t, rfl, rfl, rfl, h.symm⟩
+
+/-- Renumbering the later blocks down by one. -/
+theorem blockPhase_shift (lim : Limits) (base : List DFact) (f : CheckId → CheckId) :
+    ∀ (bs : List Block) (idx : Nat) (acc : List CheckId),
+    (∀ j c, idx ≤ j → f (.block (j + 1) c) = .block j c) →
+    Except.map (List.map f) (blockPhase cfg lim base bs (idx + 1) acc) =
+      blockPhase cfg lim base bs idx (acc.map f)
+  | [], idx, acc, _ => by simp [blockPhase, Except.map]
+  | b :: bs, idx, acc, hf => by
+    simp only [blockPhase]
+    rw [evalBlock_shift cfg lim base b idx (idx + 1) f (fun c => hf idx c (Nat.le_refl _))]
+    cases evalBlock cfg lim base b (idx + 1) with
+    | error e => rfl
+    | ok failed =>
+      simp only [Except.map]
+      have := blockPhase_shift lim base f bs (idx + 1) (acc ++ failed)
+        (fun j c hj => hf j c (by omega))
+      rw [List.map_append] at this
+      exact this
+
+/-- A relabelling that fixes the tags of the blocks of a loop fixes its result. -/
+theorem blockPhase_map_id (lim : Limits) (base : List DFact) (f : CheckId → CheckId) :
+    ∀ (bs : List Block) (idx : Nat) (acc out : List CheckId),
+    blockPhase cfg lim base bs idx acc = .ok out →
+    (∀ j c, idx ≤ j → j < idx + bs.length → f (.block j c) = .block j c) →
+    acc.map f = acc → out.map f = out
+  | [], idx, acc, out, h, _, hacc => by
+    simp only [blockPhase, Except.ok.injEq] at h
+    subst h; exact hacc
+  | b :: bs, idx, acc, out, h, hf, hacc => by
+    simp only [blockPhase] at h
+    split at h
+    · cases h
+    · next failed he =>
+      refine blockPhase_map_id lim base f bs (idx + 1) (acc ++ failed) out h
+        (fun j c h1 h2 => hf j c (by omega) (by simp only [List.length_cons]; omega)) ?_
+      rw [List.map_append, hacc]
+      congr 1
+      have hall := evalBlock_ok_forall cfg lim base b idx failed he
+      have : ∀ x ∈ failed, f x = x := by
+        intro x hx
+        obtain ⟨c, rfl⟩ := hall x hx
+        exact hf idx c (Nat.le_refl _) (by simp only [List.length_cons]; omega)
+      calc failed.map f = failed.map id := List.map_congr_left this
+        _ = failed := List.map_id _
+
+/-! ### `Authorize` -/
+
+/-- Verdict from the policy result and the outcome of the block loop. -/
+def finish (pol : Option PolicyKind) : Except RunErr (List CheckId) → Verdict
+  | .error e => .runError e
+  | .ok failed => if !failed.isEmpty then .checksFailed failed else policyVerdict pol
+
+theorem authorizeWith_snd_ok (p : Bool) (tok : Token) (s : AuthState) (w : World)
+    (ap : AuthorityPhase) (h : authorityPhase cfg tok.authority s = (w, .ok ap)) :
+    (authorizeWith cfg p tok s).2 =
+      finish ap.policy (blockPhase cfg s.limits w.facts tok.blocks 1 ap.failed) := by
+  simp only [authorizeWith, h]
+  cases blockPhase cfg s.limits w.facts tok.blocks 1 ap.failed with
+  | error e => rfl
+  | ok failed =>
+    simp only [finish]
+    split <;> rfl
+
+theorem authorizeWith_snd_err (p : Bool) (tok : Token) (s : AuthState) (w : World)
+    (e : RunErr) (h : authorityPhase cfg tok.authority s = (w, .error e)) :
+    (authorizeWith cfg p tok s).2 = .runError e := by
+  simp only [authorizeWith, h]
+
+/-- The state left by the repaired `Authorize` is decided by the authority phase alone. -/
+theorem authorizeWith_fst_false (tok : Token) (s : AuthState) :
+    (authorizeWith cfg false tok s).1 =
+      match authorityPhase cfg tok.authority s with
+      | (w, .error _) => { s with world := w }
+      | (w, .ok _) => { s with world := w, dirty := true } := by
+  unfold authorizeWith
+  split
+  · next heq => rw [heq]
+  · next heq =>
+    rw [heq]
+    simp only
+    split
+    · rfl
+    · split <;> rfl
+
+theorem authorizeWith_limits (p : Bool) (tok : Token) (s : AuthState) :
+    (authorizeWith cfg p tok s).1.limits = s.limits := by
+  unfold authorizeWith
+  split
+  · rfl
+  · simp only
+    split
+    · rfl
+    · split
+      · rfl
+      · cases p <;> rfl
+
+theorem authorizeWith_baseWorld_false (tok : Token) (s : AuthState) :
+    (authorizeWith cfg false tok s).1.baseWorld = s.baseWorld := by
+  rw [authorizeWith_fst_false]
+  split <;> rfl
+
+theorem finish_eq_ok (pol : Option PolicyKind) (r : Except RunErr (List CheckId))
+    (h : finish pol r = .ok) : r = .ok [] ∧ policyVerdict pol = .ok := by
+  cases r with
+  | error e => cases h
+  | ok failed =>
+    simp only [finish] at h
+    split at h
+    · cases h
+    · next hne =>
+      cases failed with
+      | nil => exact ⟨rfl, h⟩
+      | cons a l => simp at hne
+
+theorem policyVerdict_ne_checksFailed (pol : Option PolicyKind) (ids : List CheckId) :
+    policyVerdict pol ≠ .checksFailed ids := by
+  cases pol with
+  | none => nofun
+  | some k => cases k <;> nofun
+
+theorem policyVerdict_ne_runError (pol : Option PolicyKind) (e : RunErr) :
+    policyVerdict pol ≠ .runError e := by
+  cases pol with
+  | none => nofun
+  | some k => cases k <;> nofun
+
+theorem finish_eq_checksFailed (pol : Option PolicyKind) (r : Except RunErr (List CheckId))
+    (ids : List CheckId) (h : finish pol r = .checksFailed ids) : r = .ok ids := by
+  cases r with
+  | error e => cases h
+  | ok failed =>
+    simp only [finish] at h
+    split at h
+    · cases h; rfl
+    · exact absurd h (policyVerdict_ne_checksFailed pol ids)
+
+theorem finish_eq_runError (pol : Option PolicyKind) (r : Except RunErr (List CheckId))
+    (e : RunErr) (h : finish pol r = .runError e) : r = .error e := by
+  cases r with
+  | error e' => cases h; rfl
+  | ok failed =>
+    simp only [finish] at h
+    split at h
+    · cases h
+    · exact absurd h (policyVerdict_ne_runError pol e)
+
+/-- Dropping a suffix of the later blocks keeps an acceptance. -/
+theorem authorize_suffix_ok (A : Block) (bs Bs : List Block) (s : AuthState) :
+    (authorize cfg ⟨A, bs ++ Bs⟩ s).2 = .ok → (authorize cfg ⟨A, bs⟩ s).2 = .ok := by
+  intro h
+  cases hap : authorityPhase cfg A s with
+  | mk w r =>
+    cases r with
+    | error e =>
+      rw [authorize, authorizeWith_snd_err cfg false ⟨A, bs ++ Bs⟩ s w e hap] at h
+      cases h
+    | ok ap =>
+      rw [authorize, authorizeWith_snd_ok cfg false ⟨A, bs ++ Bs⟩ s w ap hap] at h
+      rw [authorize, authorizeWith_snd_ok cfg false ⟨A, bs⟩ s w ap hap]
+      obtain ⟨hb, hp⟩ := finish_eq_ok _ _ h
+      simp only at hb
+      rw [blockPhase_append] at hb
+      cases hpre : blockPhase cfg s.limits w.facts bs 1 ap.failed with
+      | error e => rw [hpre] at hb; cases hb
+      | ok acc =>
+        rw [hpre] at hb
+        have hnil : acc = [] := List.prefix_nil.mp (blockPhase_prefix cfg _ _ _ _ _ _ hb)
+        subst hnil
+        simpa [finish] using hp
+
+/-- The failures of the authority phase carry only `authorizer _` and `block 0 _` tags. -/
+theorem authorityPhase_failed_map (A : Block) (s : AuthState) (w : World) (ap : AuthorityPhase)
+    (h : authorityPhase cfg A s = (w, .ok ap)) (f : CheckId → CheckId)
+    (hA : ∀ c, f (.authorizer c) = .authorizer c) (h0 : ∀ c, f (.block 0 c) = .block 0 c) :
+    ap.failed.map f = ap.failed := by
+  simp only [authorityPhase] at h
+  split at h
+  · simp at h
+  · simp only [Prod.mk.injEq, Except.ok.injEq] at h
+    obtain ⟨_, rfl⟩ := h
+    simp only [List.map_append, failedChecks_map, hA, h0]
+
+theorem query_limits (s : AuthState) (q : DRule) : (query cfg s q).1.limits = s.limits := by
+  unfold query
+  split <;> rfl
+
+theorem query_baseWorld (s : AuthState) (q : DRule) :
+    (query cfg s q).1.baseWorld = s.baseWorld := by
+  unfold query
+  split <;> rfl
+
+/-! ### Histories -/
+
+theorem stepOpSeq_limits (p : Bool) (toks : List Token) (st : SeqState) (op : AuthOp) :
+    (stepOpSeq cfg p toks st op).1.auth.limits = st.auth.limits := by
+  cases op with
+  | addFact f => rfl
+  | addRule r => rfl
+  | addCheck c => rfl
+  | addPolicy p => rfl
+  | authorize => exact authorizeWith_limits cfg p _ _
+  | query q =>
+    have := query_limits cfg st.auth q
+    simp only [stepOpSeq]
+    split <;> (next heq => rw [heq] at this; exact this)
+  | reset => rfl
+  | saveLoad j =>
+    simp only [stepOpSeq]
+    split <;> rfl
+
+/-- With the repaired `Authorize`, an empty base world stays empty. -/
+theorem stepOpSeq_baseWorld (toks : List Token) (st : SeqState) (op : AuthOp)
+    (h : st.auth.baseWorld = World.empty) :
+    (stepOpSeq cfg false toks st op).1.auth.baseWorld = World.empty := by
+  cases op with
+  | addFact f => exact h
+  | addRule r => exact h
+  | addCheck c => exact h
+  | addPolicy p => exact h
+  | authorize => exact (authorizeWith_baseWorld_false cfg _ _).trans h
+  | query q =>
+    have := query_baseWorld cfg st.auth q
+    simp only [stepOpSeq]
+    split <;> (next heq => rw [heq] at this; exact this.trans h)
+  | reset => exact h
+  | saveLoad j =>
+    simp only [stepOpSeq]
+    split
+    · exact h
+    · rfl
+
+/-- Final state of a history (same recursion as `C13.finalState`). -/
+def seqFinal (p : Bool) (toks : List Token) : SeqState → List AuthOp → SeqState
+  | st, [] => st
+  | st, op :: ops => seqFinal p toks (stepOpSeq cfg p toks st op).1 ops
+
+theorem seqFinal_invariant (toks : List Token) :
+    ∀ (h : List AuthOp) (st : SeqState), st.auth.baseWorld = World.empty →
+      (seqFinal cfg false toks st h).auth.baseWorld = World.empty ∧
+      (seqFinal cfg false toks st h).auth.limits = st.auth.limits
+  | [], st, hb => ⟨hb, rfl⟩
+  | op :: ops, st, hb => by
+    simp only [seqFinal]
+    obtain ⟨h1, h2⟩ := seqFinal_invariant toks ops _ (stepOpSeq_baseWorld cfg toks st op hb)
+    exact ⟨h1, h2.trans (stepOpSeq_limits cfg false toks st op)⟩
+
+theorem runSeq_append (p : Bool) (toks : List Token) :
+    ∀ (h k : List AuthOp) (st : SeqState),
+    runSeq cfg p toks st (h ++ k) = runSeq cfg p toks st h ++ runSeq cfg p toks (seqFinal cfg p toks st h) k
+  | [], k, st => rfl
+  | op :: ops, k, st => by
+    simp only [List.cons_append, runSeq, seqFinal, runSeq_append p toks ops k]
+
+theorem reset_of_base (s : AuthState) (lim : Limits) (hb : s.baseWorld = World.empty)
+    (hl : s.limits = lim) : reset s = AuthState.fresh lim := by
+  simp only [reset, AuthState.fresh, hb, hl]
+
+end Auth
+
 end Biscuit
